@@ -194,7 +194,7 @@ for k in ["pawn", "knight", "bishop", "rook", "queen", "king", "none"]:
 for k in ["pawn", "knight", "bishop", "rook", "queen", "king"]:
     ob("C12", "O-C12.status." + k, MG + "c12_status_" + k, "status() is one of the two rows of the Won/Drawn/Ongoing table for (in check, clock >= 100) and is the has-a-legal-move row whenever a legal %s move exists (loop-invariant VCs: no processed square has a legal move)" % k,
        ["Board::status", "Board::generate_moves", "Board::generate_moves_for"] + GENFNS[1:], timeout=3600, cut=True, flags=BF, expect_covers=0,
-       tier="quick" if k in ("pawn", "rook", "king") else "thorough")
+       tier="quick" if k in ("pawn", "king") else "thorough")
 ob("C12", "O-C12.status.table", MG + "c12_status_table", "status() == Won/Drawn/Ongoing table applied to (answer of exactly one call of generate_moves, checkers non-empty, clock >= 100); generate_moves through a recording contract stub",
    ["Board::status"], timeout=900)
 ob("C12", "O-C12.status.double-check", MG + "c12_status_double_check", "in double check (only king steps can be legal: proved for a universally quantified move) status() == table(the king has a safe destination, in check, clock) - both directions, exact",
